@@ -1,3 +1,55 @@
-From MW Require Import Num.
-Theorem placeholder : True. Proof. exact I. Qed.
-Print Assumptions placeholder.
+(*  C06 — Incremental training equals batch training.
+   
+    PROVED under exact arithmetic (NumLaws; QcLaws shows the laws are satisfiable) for count/sum based policies:
+     * the running sum, count and mean that C01 shows the policies hold depend only on the concatenation of
+       the reward batches observed for the arm since the last fit - NOT on how that history was cut into
+       fit / partial_fit batches (any chunking, chunks in which the arm does not occur, one-row chunks);
+     * in particular fit(c1 ++ c2) and fit(c1); partial_fit(c2) give the same sum, count and mean for every arm.
+    PROVED structurally (any number structure, so also bit-for-bit in binary64) for neighbourhood policies:
+     * Radius / KNearest / LSHNearest store exactly the concatenation of the rows of fit and partial_fit
+       (C03_history_after_fit / _partial_fit) and LSH files a partial_fit row under start+i in the bucket of
+       its hash with the SAME planes (C11_insert_rows_bucket).
+    ..._partial: linear policies (associativity of matrix sums) and Clusters are covered by the batch-versus-
+    chunked relation on the implementation only. *)
+From Coq Require Import List ZArith Bool Arith QArith Qcanon Permutation.
+From MW Require Import Num Assoc AssocFacts Rng Par CF CFInv CFClean CFForget CFSpec Matrix Lin Warm WarmInv Nbr NbrFacts NbrIndep LshFacts Clu Tree CellFacts Mab FacadeCF FacadeArms MoreFacts NumLaws CFAlg Sim Extra QcInst.
+Import ListNotations.
+
+Theorem C06_statistics_depend_only_on_concatenated_history :
+  forall (R : Type) (N : Num R),
+  NumLaws N ->
+  forall bs bs' : list (list R),
+  concat (rev bs) = concat (rev bs') ->
+  spec_sum N bs = spec_sum N bs' /\ spec_count bs = spec_count bs' /\ spec_mean N bs = spec_mean N bs'.
+Proof. exact @chunking_irrelevant. Qed.
+Print Assumptions C06_statistics_depend_only_on_concatenated_history.
+
+Theorem C06_fit_whole_equals_fit_prefix_plus_partial_fit_partial :
+  forall (R A : Type) (N : Num R),
+  NumLaws N ->
+  forall (aeqb : A -> A -> bool) (a : A) (d1 d2 : list A) (r1 r2 : list R) (t : list (@cfop R A)),
+  length d1 = length r1 ->
+  let whole := batches_rev aeqb (OFit (d1 ++ d2) (r1 ++ r2) :: t) a in
+  let split := batches_rev aeqb (OPartial d2 r2 :: OFit d1 r1 :: t) a in
+  spec_sum N whole = spec_sum N split /\
+  spec_count whole = spec_count split /\ spec_mean N whole = spec_mean N split.
+Proof. exact @batch_equals_incremental_spec. Qed.
+Print Assumptions C06_fit_whole_equals_fit_prefix_plus_partial_fit_partial.
+
+Theorem C06_sum_closed_form :
+  forall (R : Type) (N : Num R),
+  NumLaws N -> forall bs : list (list R), spec_sum N bs = nsum N (concat (rev bs)).
+Proof. exact @spec_sum_concat. Qed.
+Print Assumptions C06_sum_closed_form.
+
+Theorem C06_count_closed_form :
+  forall (R : Type) (bs : list (list R)), spec_count bs = Z.of_nat (length (concat (rev bs))).
+Proof. exact @spec_count_concat. Qed.
+Print Assumptions C06_count_closed_form.
+
+Theorem C06_laws_are_satisfiable :
+  NumLaws QcNum.
+Proof. exact @QcLaws. Qed.
+Print Assumptions C06_laws_are_satisfiable.
+
+
